@@ -84,7 +84,7 @@ Definition node_rows (n : cfg) : list (list Z) :=
        ++ user_rows host (items (sub K_users n)) ++ file_rows host (items (sub K_folders n)).
 
 Definition link_row (l : cfg) : list Z :=
-  [9; scalar K_endpoint_a_hostname (-1) l; scalar K_endpoint_a_port (-1) l; scalar K_endpoint_b_hostname (-1) l; scalar K_endpoint_b_port (-1) l; scalar K_bandwidth 100 l].
+  [9; scalar K_endpoint_a_hostname (-1) l; scalar K_endpoint_a_port (-1) l; scalar K_endpoint_b_hostname (-1) l; scalar K_endpoint_b_port (-1) l; scalar K_bandwidth 100000 l].   (* bandwidth in thousandths of Mbit/s; default 100 *)
 Definition agent_row (a : cfg) : list Z := [10; scalar K_ref (-1) a; scalar K_type (-1) a; scalar K_team (-1) a].
 
 Definition build (c : cfg) : list (list Z) :=
